@@ -34,6 +34,7 @@ def exprOfSTerm : STerm → PExpr
   | .atom s => .call "atom" [.str s]
   | .num n => .int n
   | .fn f args => .call "functor" [.str f, .list (args.attach.map fun ⟨a, _⟩ => exprOfSTerm a)]
+  | .numfn f args => .call "functor" [.str f, .list (args.attach.map fun ⟨a, _⟩ => exprOfSTerm a)]  -- see `programCrashes`
   | .list [] => .name "ATOM_NIL"
   | .list items => .call "makelist" [.list (items.attach.map fun ⟨a, _⟩ => exprOfSTerm a)]
   | .lpair h t => .call "listpair" [exprOfSTerm h, exprOfSTerm t]
@@ -101,6 +102,26 @@ def compileProgram (preds : List Pred) : List PStmt :=
   (preds.foldl (fun (acc, n) p =>
       let (ccs, n') := compilePred p n
       (acc ++ [defOfPred p ccs], n')) (([] : List PStmt), 0)).1
+
+mutual
+/-- Code was built for a term with a numeral functor name: `compile_expression` / `compile_predicate`
+    raise at that point. -/
+def codeCrashes : Code → Bool
+  | .foreach _ args body => args.any STerm.hasNumFn || codesCrash body
+  | .block _ body => codesCrash body
+  | _ => false
+def codesCrash : List Code → Bool
+  | [] => false
+  | c :: cs => codeCrashes c || codesCrash cs
+end
+
+def clauseCrashes (cc : ClauseCode) : Bool :=
+  cc.unifs.any (fun (_, t) => t.hasNumFn) || codesCrash cc.code
+
+def programCrashes (preds : List Pred) : Bool :=
+  (preds.foldl (fun (acc, n) p =>
+      let (ccs, n') := compilePred p n
+      (acc || ccs.any clauseCrashes, n')) (false, 0)).1
 
 /-- Static `for` nesting (CPython refuses more than 20) and bracket nesting (more than 200). -/
 def PExpr.maxBrackets (e : PExpr) : Nat := e.brackets
